@@ -8,7 +8,7 @@ import dbmodel as M
 import iotie
 
 KINDS = ["insert", "insert_multiple", "remove_some", "remove_none", "remove_all_match", "update_some",
-         "update_nochange", "drop", "remove_all", "handle_update", "insert_multiple_bad", "update_raises", "update_shrink"]
+         "update_nochange", "drop", "remove_all", "handle_update", "insert_multiple_bad", "update_raises", "update_shrink", "remove_most"]
 BAD = [{"time": 0, "meas": "<undecodable>", "tags": {}, "fields": {}}]
 
 
@@ -26,7 +26,7 @@ def main(tier, seed):
     ck = Check("C12", tier, seed)
     tf = use_impl()
     b = ck.build_proofs("Prop_C12", extra_targets=["Run.vo", "IO.vo"])
-    n_cases = 15 if tier == "quick" else 144
+    n_cases = 16 if tier == "quick" else 144
     cases = iotie.io_cases(seed, n_cases, kinds=KINDS)
     coq_cases, direct_bad, n_pairs, kinds, hard_checked = [], [], 0, {}, 0
     for ci, (hist, op, auto, kind) in enumerate(cases):
